@@ -202,7 +202,7 @@ func (m *Machine) visible(what string, enabled func() bool, do func()) {
 			m.deadlock(what)
 		}
 		i := 0
-		if len(opts) > 1 {
+		if len(opts) > 1 && (self || !m.Cfg.DetForced) {
 			i = m.choice(len(opts))
 		}
 		if opts[i] == t {
@@ -238,7 +238,7 @@ func (m *Machine) taskExit(t *Task) {
 		return
 	}
 	i := 0
-	if len(others) > 1 {
+	if len(others) > 1 && !m.Cfg.DetForced {
 		i = m.choice(len(others))
 	}
 	s.switches++
@@ -398,7 +398,7 @@ func (m *Machine) selectOp(fr *Frame, ins *ssa.Select) Value {
 			return
 		}
 		i := 0
-		if len(r) > 1 {
+		if len(r) > 1 && !m.Cfg.DetForced {
 			i = m.choice(len(r))
 		}
 		chosen = r[i]
